@@ -85,6 +85,14 @@ def generate(rng, tier):
             for j in (b"", b"22,"):
                 add(b"[[" + b"1," * k + j + num + b"]]", "longest-number", rng.choice([256, 256, 0, 264]), 0)
             add(b"[" + b"1," * k + rng.choice([b"", b"[],"]) + num + b"," + num + b"]", "longest-number", rng.choice([256, 128, 64]), rng.choice([0, 1]))
+    # short strings (plain, and control bytes followed by a plain byte) written at every distance from the end of the buffer: the
+    # vector kernels of Quote store whole blocks, the per-string reservation is the only room they have
+    for k in range(0, 140):
+        for sbody in (b"x", b"xy", b"\\u0001\\u0002z", b"\\u001f" * 3 + b"q"):
+            for j in (b"", b"22,", b"null,"):
+                if quick and (k + len(sbody) + len(j)) % 3:
+                    continue
+                add(b"[[" + b"1," * k + j + b'"' + sbody + b'"]]', "string-at-buffer-end", rng.choice([256, 256, 0, 264, 128]), 0)
     # long chains of closing brackets behind a small last leaf, in small / fresh / reused buffers: '[[[...leaf...]]]' and the object
     # form, every depth (quick: sampled) up to 400 - the reservation made when a scope is closed is the only room the closers have
     depths = list(range(0, 401)) if not quick else sorted(set(rng.sample(range(0, 401), 60) + [38, 39, 40, 41, 42, 80, 81, 82, 83, 126, 127, 128, 129, 130, 255, 256, 257]))
